@@ -56,11 +56,20 @@ class JsonSerde:
         return json.loads(value)
 
 
+class FalsyJsonSerde(JsonSerde):
+    """a serializer object that is falsy (a codec registry with no extra codec registered: len() == 0)"""
+
+    def __len__(self):
+        return 0
+
+
 def make_serde(spec):
     if spec is None:
         return None
     if spec[0] == "json":
         return JsonSerde()
+    if spec[0] == "falsy-json":
+        return FalsyJsonSerde()
     if spec[0] == "pickle":
         return S.PickleSerde(spec[1])
     if spec[0] == "compressed":
@@ -222,6 +231,9 @@ def _check(case, env):
             arg = tuple(req)
         elif coll == "set":
             arg = set(req)
+        elif coll == "wrapper":
+            from vlib.ops import OneShot
+            arg = OneShot(req)
         elif coll == "dictview":
             arg = {k: None for k in req}.keys()
         elif coll == "iter":
@@ -362,7 +374,7 @@ def case_strategy(draw, tier="quick"):
     absent = [a for a in absent if (a.encode() if isinstance(a, str) else a) not in wire]
     store = draw(st.sampled_from(["set", "set", "add", "replace", "cas", "set_many"]))
     fetch = draw(st.sampled_from(["get", "gets", "gat", "gats", "get_many", "get_many", "gets_many"]))
-    coll = draw(st.sampled_from(["list", "tuple", "set", "dictview", "iter", "generator"]))
+    coll = draw(st.sampled_from(["list", "tuple", "set", "dictview", "iter", "generator", "wrapper"]))
     pieces = draw(st.one_of(st.none(), st.lists(st.sampled_from([1, 2, 3, 7, 13, 4095, 4096, 1 << 30]), min_size=1, max_size=6)))
     return {"kind": kind, "cfg": cfg, "serde": spec, "items": items, "absent": absent, "store": store, "fetch": fetch,
             "coll": coll, "pieces": pieces, "noreply": draw(st.booleans()), "respell": draw(st.booleans()),
@@ -471,7 +483,7 @@ def grid_cases(tier, seed):
                                "store": store, "fetch": fetch, "coll": "list", "pieces": [4096] if fetch == "get" else None, "noreply": False,
                                "client_class": cc, "client_class_how": how}
     # every key-collection type x every multi-key fetch x every client kind
-    for coll in ("list", "tuple", "set", "dictview", "iter", "generator"):
+    for coll in ("list", "tuple", "set", "dictview", "iter", "generator", "wrapper"):
         for fetch in ("get_many", "gets_many"):
             for kind in ("client", "pooled", "hash", "hash-pooled"):
                 for pfx in (b"", b"p:"):
